@@ -1,11 +1,168 @@
 //! Helper processes the checks re-execute themselves as (crash isolation,
-//! resource limits, the overflow-checked twin build).
+//! resource limits, the overflow-checked twin build of this same binary).
+
+use crate::engine::{guarded, install_panic_hook};
+use ragc_common::Archive;
+use ragc_core::{Decompressor, DecompressorConfig};
+use serde_json::json;
+use std::io::Write;
+use std::path::PathBuf;
+
+fn arg(args: &[String], flag: &str) -> Option<String> {
+    args.iter().position(|a| a == flag).and_then(|i| args.get(i + 1).cloned())
+}
+
+pub fn set_rlimit_as(bytes: u64) {
+    let lim = libc::rlimit { rlim_cur: bytes, rlim_max: bytes };
+    unsafe {
+        libc::setrlimit(libc::RLIMIT_AS, &lim);
+    }
+}
 
 pub fn child_main(args: &[String]) -> i32 {
+    unsafe {
+        libc::prctl(libc::PR_SET_PDEATHSIG, libc::SIGKILL);
+    }
     match args.first().map(|s| s.as_str()) {
+        Some("prefixes") => prefixes(&args[1..]),
+        Some("estimate") => crate::props::c18::estimate_child(&args[1..]),
+        Some("extract") => extract(&args[1..]),
+        Some("create") => create(&args[1..]),
         _ => {
             eprintln!("unknown child {:?}", args.first());
             2
         }
     }
+}
+
+/// `create <params.json> <out> <inputs…>`: the library create path; prints `finalize-ok` or
+/// `finalize-err: …` and exits 0 in both cases (a crash is then distinguishable).
+fn create(args: &[String]) -> i32 {
+    install_panic_hook();
+    let p: crate::gen::Params = match std::fs::read_to_string(&args[0]).ok().and_then(|t| serde_json::from_str(&t).ok()) {
+        Some(p) => p,
+        None => {
+            eprintln!("bad params file");
+            return 2;
+        }
+    };
+    let out = PathBuf::from(&args[1]);
+    let inputs: Vec<PathBuf> = args[2..].iter().map(PathBuf::from).collect();
+    match guarded(|| crate::pipeline::create_inproc(&p, &inputs, &out, &Default::default())) {
+        Ok(Ok(())) => println!("finalize-ok"),
+        Ok(Err(e)) => println!("finalize-err: {}", e.replace('\n', " ")),
+        Err(p) => println!("finalize-panic: {}", p),
+    }
+    0
+}
+
+/// `extract <archive>`: print the sha256 of the full extraction (or the error class); used to
+/// compare build profiles.
+fn extract(args: &[String]) -> i32 {
+    install_panic_hook();
+    let a = PathBuf::from(&args[0]);
+    let r = guarded(|| crate::pipeline::read_all(&a));
+    let line = match r {
+        Ok(Ok(v)) => format!("ok {}", crate::util::sha256_hex(format!("{:?}", v).as_bytes())),
+        Ok(Err(e)) => format!("err {}", e.lines().next().unwrap_or("")),
+        Err(p) => format!("panic {}", p),
+    };
+    println!("{}", line);
+    0
+}
+
+/// Try every prefix length in `from, from-stride, … >= to` of `archive` (work file is truncated
+/// in place, descending). For each: Archive::open and Decompressor::open must return an error.
+fn prefixes(args: &[String]) -> i32 {
+    install_panic_hook();
+    let work = PathBuf::from(arg(args, "--work").expect("--work"));
+    let from: u64 = arg(args, "--from").and_then(|s| s.parse().ok()).expect("--from");
+    let to: u64 = arg(args, "--to").and_then(|s| s.parse().ok()).expect("--to");
+    let stride: u64 = arg(args, "--stride").and_then(|s| s.parse().ok()).unwrap_or(1).max(1);
+    let dense_tail: u64 = arg(args, "--dense-tail").and_then(|s| s.parse().ok()).unwrap_or(0);
+    let full_len: u64 = arg(args, "--full-len").and_then(|s| s.parse().ok()).unwrap_or(from + 1);
+    let progress = PathBuf::from(arg(args, "--progress").expect("--progress"));
+    let out = PathBuf::from(arg(args, "--out").expect("--out"));
+    set_rlimit_as(4 << 30);
+    let file = std::fs::OpenOptions::new().write(true).open(&work).expect("open work file");
+    let mut pf = std::fs::OpenOptions::new().create(true).write(true).truncate(true).open(&progress).expect("progress file");
+    let mut tried = 0u64;
+    let mut class_a = 0u64; // last 8 bytes as length >= 2^63
+    let mut class_b = 0u64; // < 2^63 but > file size
+    let mut class_c = 0u64; // <= file size
+    let mut short = 0u64; // fewer than 8 bytes
+    let mut archive_open_ok = 0u64;
+    let mut violations: Vec<serde_json::Value> = Vec::new();
+    let wpath = work.to_string_lossy().to_string();
+    let mut n = from as i64;
+    while n >= to as i64 {
+        let len = n as u64;
+        // dense near both ends of the file, strided in between
+        let near_end = full_len - len <= dense_tail || len <= dense_tail;
+        if stride > 1 && !near_end && len % stride != 0 {
+            n -= 1;
+            continue;
+        }
+        file.set_len(len).expect("truncate");
+        use std::io::Seek;
+        pf.seek(std::io::SeekFrom::Start(0)).ok();
+        let _ = pf.write_all(format!("{:<20}", len).as_bytes());
+        tried += 1;
+        if len < 8 {
+            short += 1;
+        } else {
+            let bytes = std::fs::read(&work).map(|b| b[b.len() - 8..].to_vec()).unwrap_or_default();
+            if bytes.len() == 8 {
+                let v = u64::from_le_bytes(bytes.try_into().unwrap());
+                if v >= 1 << 63 {
+                    class_a += 1;
+                } else if v > len {
+                    class_b += 1;
+                } else {
+                    class_c += 1;
+                }
+            }
+        }
+        let r1 = guarded(|| {
+            let mut a = Archive::new_reader();
+            a.open(&work).is_ok()
+        });
+        match r1 {
+            Ok(true) => archive_open_ok += 1,
+            Ok(false) => {}
+            Err(p) => {
+                if violations.len() < 20 {
+                    violations.push(json!({"prefix": len, "what": format!("Archive::open panicked: {}", p)}));
+                }
+            }
+        }
+        let r2 = guarded(|| match Decompressor::open(&wpath, DecompressorConfig { verbosity: 0 }) {
+            Err(_) => None,
+            Ok(mut d) => {
+                let samples = d.list_samples();
+                let readable = samples.iter().filter(|s| d.get_sample(s).is_ok()).count();
+                Some((samples.len(), readable))
+            }
+        });
+        match r2 {
+            Ok(None) => {}
+            Ok(Some((ns, readable))) => {
+                if violations.len() < 20 {
+                    violations.push(json!({"prefix": len, "what": format!("Decompressor::open returned a handle ({} samples listed, {} readable)", ns, readable)}));
+                }
+            }
+            Err(p) => {
+                if violations.len() < 20 {
+                    violations.push(json!({"prefix": len, "what": format!("Decompressor::open panicked: {}", p)}));
+                }
+            }
+        }
+        n -= 1;
+    }
+    let res = json!({
+        "tried": tried, "class_ge_2_63": class_a, "class_gt_file": class_b, "class_le_file": class_c, "shorter_than_8": short,
+        "archive_open_ok": archive_open_ok, "violations": violations,
+    });
+    std::fs::write(&out, res.to_string()).expect("write result");
+    0
 }
